@@ -258,7 +258,7 @@ async def run_plan(net, hyg, plan):
         await c.quit()
         return viol, mon
     finally:
-        await w.server.close()
+        await w.stop()
         w.cleanup()
         if tmp:
             shutil.rmtree(tmp, ignore_errors=True)
@@ -276,7 +276,7 @@ def run_case(case):
             return await run_plan(net, hyg, plan)
         res, info = W.run(main, seed=plan["seed"], net_kwargs=dict(latency=0.0003))
         if res is None:
-            return {"inconclusive": info.get("deadlock") or info.get("error"), "trace": info.get("trace", "")}
+            return W.failed(info)
         viol, mon = res
         for k, v in mon.items():
             out["monitors"][k] = out["monitors"].get(k, 0) + v
